@@ -14,6 +14,11 @@ Decided:
   MPT-C14d    open_locked loads every persisted in-memory index (lex, Tantivy, vec, clip) *before* it replays the WAL:
               recovery rebuilds the indexes from the in-memory ones (build_vec_artifact copies self.vec_index), so a
               loader that can run after recover_wal means the replay starts from an empty index and persists it.
+  GUARD-C14e  the carry-over of an update is decided by the live index, not by the persisted manifest: no test that guards
+              update_frame's frame_embedding lookup reads the TOC's index manifests (VecIndexManifest.vector_count and
+              friends, directly or through an accessor). Between commit_skip_indexes and finalize_indexes the manifest
+              says 0 vectors while the in-memory index holds them all; gating the lookup on it drops the embedding of
+              every frame updated in that window.
 Not decided: the exact membership over histories (values)."""
 from . import lib
 from .facts import Place, op_place, rv_places
@@ -181,6 +186,32 @@ def _carry(ctx, F):
                 ctx.bad('FLOW-C14c', up, 'an update without an explicit embedding does not carry over the old frame\'s embedding', line=pi[0].line, detail='embedding-not-carried')
         else:
             ctx.bad('FLOW-C14c', up, 'update_frame no longer looks up the old embedding', detail='embedding-not-carried')
+        ctx.rule('GUARD-C14e', 'update_frame: the tests guarding the frame_embedding lookup do not read the persisted index manifests')
+        from .c05 import _deep_fields
+        for f0 in fe:
+            ctx.evaluations += 1
+            stale = None
+            for g, rel in lib.guards_holding_at(up, f0.bb):
+                for side in (g.sa(), g.sb()):
+                    flds = set(side.fields)
+                    for c in side.calls:
+                        h = F.fns.get(c.local_callee) if c.local_callee else None
+                        if h is not None:
+                            for body in [h] + F.closures_of(h):
+                                for bb, i, st in body.stmts():
+                                    for o in lib.rv_operands(st['rv']):
+                                        q = op_place(o)
+                                        if q is not None:
+                                            flds |= set(q.field_owners())
+                    hit = sorted('%s.%s' % x for x in flds if x[0] in ('VecIndexManifest', 'IndexManifests', 'LexIndexManifest') or x == ('Toc', 'indexes'))
+                    if hit:
+                        stale = (g, hit)
+            if stale:
+                ctx.bad('GUARD-C14e', up, 'the lookup of the old embedding is gated on the persisted manifest (%s, test at line %s): while the manifest lags the in-memory index (after '
+                        'commit_skip_indexes, before finalize_indexes) an update drops the frame\'s embedding for good' % (', '.join(stale[1][:2]), stale[0].line), line=f0.line,
+                        sink='Memvid::frame_embedding', detail='carry-over-gated-on-manifest')
+            else:
+                ctx.ok('GUARD-C14e', up, 'the carry-over lookup is not conditioned on the persisted index manifests', line=f0.line)
     ar = ctx.need('FLOW-C14c', 'Memvid::apply_records')
     if ar is not None:
         pushes = [c for c in ar.calls() if c.is_('Vec::push') and lib.slice_back(ar, c.args[:1], through_calls=False).has_field('IngestionDelta', 'inserted_embeddings')]
